@@ -146,6 +146,19 @@ pub mod verif_hooks {
         pub fn get_ref(&self) -> &W {
             &self.inner
         }
+        pub fn into_inner(self) -> W {
+            self.inner
+        }
+    }
+
+    impl CrashWriter<std::fs::File> {
+        /// Same as File::sync_all, so that the wrapper can stand in for the file.
+        pub fn sync_all(&self) -> std::io::Result<()> {
+            if is_dead() {
+                return Ok(());
+            }
+            self.inner.sync_all()
+        }
     }
 
     impl<W: Write> Write for CrashWriter<W> {
